@@ -294,4 +294,209 @@ theorem checksB_iff (g : G) (loc : List Nat) (r : List (Nat × Nat)) :
     · rw [foldl_min_head_eq_zero_iff _ hne]; exact h5
     · rw [foldl_max_eq_iff _ hne]; exact ⟨h6, h7⟩
 
+
+/-! ### the raw edge list -/
+
+theorem mem_subRaw (g : G) (hwf : g.WF) (loc : List Nat) (r : List (Nat × Nat)) (e : Nat × Nat) :
+    e ∈ subRaw g loc r ↔
+      ∃ a ∈ loc, ∃ b ∈ loc, g.hasEdge a b = true ∧ e = (lookup r a, lookup r b) := by
+  unfold subRaw
+  simp only [List.mem_flatMap, List.mem_map, List.mem_filter, List.contains_iff_mem,
+    G.mem_adj_wf g hwf]
+  constructor
+  · rintro ⟨a, ha, b, ⟨hab, hb⟩, rfl⟩
+    exact ⟨a, ha, b, hb, hab, rfl⟩
+  · rintro ⟨a, ha, b, hb, hab, rfl⟩
+    exact ⟨a, ha, b, ⟨hab, hb⟩, rfl⟩
+
+theorem rawMax_lt (raw : List (Nat × Nat)) (k : Nat) (hk : 0 < k)
+    (h : ∀ e ∈ raw, e.1 < k ∧ e.2 < k) : rawMax raw < k := by
+  unfold rawMax
+  rcases foldl_max_attained raw 0 with h0 | ⟨e, he, h1 | h1⟩
+  · omega
+  · have := h e he; omega
+  · have := h e he; omega
+
+theorem lookup_lt_of_checks {g : G} {loc : List Nat} {r : List (Nat × Nat)}
+    (hc : ChecksOK g loc r) {a : Nat} (ha : a ∈ loc) : lookup r a < loc.length := by
+  obtain ⟨_, _, hk, hne, hle, _, _⟩ := hc
+  have := hle _ (lookup_mem_vals r a ((hk a).2 ha))
+  have : 0 < loc.length := List.length_pos_iff.2 hne
+  omega
+
+theorem subRaw_lt (g : G) (hwf : g.WF) (loc : List Nat) (r : List (Nat × Nat))
+    (hc : ChecksOK g loc r) : ∀ e ∈ subRaw g loc r, e.1 < loc.length ∧ e.2 < loc.length := by
+  intro e he
+  obtain ⟨a, ha, b, hb, _, rfl⟩ := (mem_subRaw g hwf loc r e).1 he
+  exact ⟨lookup_lt_of_checks hc ha, lookup_lt_of_checks hc hb⟩
+
+/-- two adjacent vertices of `loc` receive the same number -/
+def Merged (g : G) (loc : List Nat) (r : List (Nat × Nat)) : Prop :=
+  ∃ a ∈ loc, ∃ b ∈ loc, g.hasEdge a b = true ∧ lookup r a = lookup r b
+
+theorem subgraph_none_of_not_checks (g : G) (loc : List Nat) (r : List (Nat × Nat))
+    (hc : ¬ ChecksOK g loc r) : g.subgraph loc (some r) = none := by
+  rw [subgraph_eq]
+  have : checksB g loc r = false := by
+    cases h : checksB g loc r
+    · rfl
+    · exact absurd ((checksB_iff g loc r).1 h) hc
+  simp [this]
+
+theorem subgraph_some_of_checks (g : G) (hwf : g.WF) (loc : List Nat) (r : List (Nat × Nat))
+    (hc : ChecksOK g loc r) (hm : ¬ Merged g loc r) :
+    g.subgraph loc (some r) = some ⟨loc.length, ((subRaw g loc r).map norm).eraseDups⟩ := by
+  rw [subgraph_eq, (checksB_iff g loc r).2 hc, if_pos rfl, mk?_some_iff]
+  refine ⟨?_, ?_, rfl⟩
+  · intro e he h
+    obtain ⟨a, ha, b, hb, hab, rfl⟩ := (mem_subRaw g hwf loc r e).1 he
+    exact hm ⟨a, ha, b, hb, hab, h⟩
+  · exact rawMax_lt _ _ (List.length_pos_iff.2 hc.2.2.2.1) (subRaw_lt g hwf loc r hc)
+
+theorem subgraph_none_of_merged (g : G) (hwf : g.WF) (loc : List Nat) (r : List (Nat × Nat))
+    (hm : Merged g loc r) : g.subgraph loc (some r) = none := by
+  rw [subgraph_eq]
+  split
+  · cases h : mk? (subRaw g loc r) (some loc.length) with
+    | none => rfl
+    | some h' =>
+      exfalso
+      obtain ⟨a, ha, b, hb, hab, e⟩ := hm
+      exact ((mk?_some_iff _ _ _).1 h).1 (lookup r a, lookup r b)
+        ((mem_subRaw g hwf loc r _).2 ⟨a, ha, b, hb, hab, rfl⟩) e
+  · rfl
+
+
+/-! ### bijective renumbering: the induced subgraph -/
+
+theorem checksOK_of_perm (g : G) (loc : List Nat) (ren : List (Nat × Nat))
+    (hne : loc ≠ []) (hnd : loc.Nodup) (hlt : ∀ q ∈ loc, q < g.n)
+    (hkeys : (ren.map (·.1)).Perm loc)
+    (hvals : (ren.map (·.2)).Perm (List.range loc.length)) : ChecksOK g loc ren := by
+  have hpos : 0 < loc.length := List.length_pos_iff.2 hne
+  refine ⟨⟨hnd, hlt⟩, ?_, fun q => hkeys.mem_iff, hne, ?_, ?_, ?_⟩
+  · have := hkeys.length_eq
+    simpa using this
+  · intro v hv
+    have := List.mem_range.1 (hvals.mem_iff.1 hv)
+    omega
+  · exact hvals.mem_iff.2 (List.mem_range.2 hpos)
+  · exact hvals.mem_iff.2 (List.mem_range.2 (by omega))
+
+/-- bijective renumbering: the induced subgraph, renumbered -/
+theorem subgraph_spec (g : G) (hwf : g.WF) (loc : List Nat) (ren : List (Nat × Nat))
+    (hne : loc ≠ []) (hnd : loc.Nodup) (hlt : ∀ q ∈ loc, q < g.n)
+    (hkeys : (ren.map (·.1)).Perm loc)
+    (hvals : (ren.map (·.2)).Perm (List.range loc.length)) :
+    ∃ h, g.subgraph loc (some ren) = some h ∧ h.n = loc.length ∧ h.WF ∧
+      (∀ a b, a ∈ loc → b ∈ loc → h.hasEdge (lookup ren a) (lookup ren b) = g.hasEdge a b) ∧
+      (∀ x y, h.hasEdge x y = true →
+         ∃ a ∈ loc, ∃ b ∈ loc, x = lookup ren a ∧ y = lookup ren b ∧ g.hasEdge a b = true) := by
+  have hc := checksOK_of_perm g loc ren hne hnd hlt hkeys hvals
+  have hvnd : (ren.map (·.2)).Nodup := hvals.nodup_iff.2 List.nodup_range
+  have hinj : ∀ a b, a ∈ loc → b ∈ loc → lookup ren a = lookup ren b → a = b :=
+    fun a b ha hb h => lookup_inj ren hvnd a b (hkeys.mem_iff.2 ha) (hkeys.mem_iff.2 hb) h
+  have hm : ¬ Merged g loc ren := by
+    rintro ⟨a, ha, b, hb, hab, e⟩
+    exact (g.hasEdge_lt hwf hab).1 (hinj a b ha hb e)
+  have hself : ∀ e ∈ subRaw g loc ren, e.1 ≠ e.2 := by
+    intro e he h
+    obtain ⟨a, ha, b, hb, hab, rfl⟩ := (mem_subRaw g hwf loc ren e).1 he
+    exact hm ⟨a, ha, b, hb, hab, h⟩
+  refine ⟨_, subgraph_some_of_checks g hwf loc ren hc hm, rfl,
+    wf_mk _ _ hself (subRaw_lt g hwf loc ren hc), ?_, ?_⟩
+  · intro a b ha hb
+    rw [Bool.eq_iff_iff, hasEdge_mk]
+    constructor
+    · rintro ⟨e, he, h⟩
+      obtain ⟨a', ha', b', hb', hab', rfl⟩ := (mem_subRaw g hwf loc ren e).1 he
+      rcases h with h | h
+      · have h := Prod.mk.inj h
+        rw [← hinj _ _ ha' ha h.1, ← hinj _ _ hb' hb h.2]; exact hab'
+      · have h := Prod.mk.inj h
+        rw [← hinj _ _ ha' hb h.1, ← hinj _ _ hb' ha h.2, G.hasEdge_comm]; exact hab'
+    · intro hab
+      exact ⟨_, (mem_subRaw g hwf loc ren _).2 ⟨a, ha, b, hb, hab, rfl⟩, Or.inl rfl⟩
+  · intro x y hxy
+    rw [hasEdge_mk] at hxy
+    obtain ⟨e, he, h⟩ := hxy
+    obtain ⟨a, ha, b, hb, hab, rfl⟩ := (mem_subRaw g hwf loc ren e).1 he
+    rcases h with h | h
+    · have h := Prod.mk.inj h
+      exact ⟨a, ha, b, hb, h.1.symm, h.2.symm, hab⟩
+    · have h := Prod.mk.inj h
+      exact ⟨b, hb, a, ha, h.2.symm, h.1.symm, by rw [G.hasEdge_comm]; exact hab⟩
+
+example : ∃ h, (G.mk 4 [(0, 1), (1, 2), (2, 3)]).subgraph [3, 1, 2] (some [(1, 0), (2, 1), (3, 2)])
+    = some h ∧ h = ⟨3, [(1, 2), (0, 1)]⟩ := by decide
+/-- non-vacuity of `subgraph_spec` -/
+example : let g : G := ⟨4, [(0, 1), (1, 2), (2, 3)]⟩
+    let loc := [3, 1, 2]
+    let ren := [(1, 0), (2, 1), (3, 2)]
+    g.WF ∧ loc ≠ [] ∧ loc.Nodup ∧ (∀ q ∈ loc, q < g.n) ∧
+    (ren.map (·.1)).Perm loc ∧ (ren.map (·.2)).Perm (List.range loc.length) := by
+  refine ⟨by unfold G.WF; decide, by decide, by decide, by decide, ?_, ?_⟩ <;> decide
+
+
+/-! ### the default renumbering -/
+
+theorem idxOf_getElem_of_nodup (l : List Nat) (hnd : l.Nodup) (i : Nat) (hi : i < l.length) :
+    l.idxOf l[i] = i := by
+  induction l generalizing i with
+  | nil => simp at hi
+  | cons x xs ih =>
+    rw [List.nodup_cons] at hnd
+    cases i with
+    | zero => simp
+    | succ j =>
+      simp only [List.getElem_cons_succ, List.idxOf_cons]
+      have hj : j < xs.length := by simpa using hi
+      have : x ≠ xs[j] := fun e => hnd.1 (e ▸ List.getElem_mem hj)
+      have hb : (x == xs[j]) = false := by simpa using this
+      rw [hb, cond_false, ih hnd.2 j hj]
+
+/-- the default renumbering instance: vertex `loc[i]` becomes `i` -/
+theorem subgraph_default_spec (g : G) (hwf : g.WF) (loc : List Nat)
+    (hne : loc ≠ []) (hnd : loc.Nodup) (hlt : ∀ q ∈ loc, q < g.n) :
+    ∃ h, g.subgraph loc none = some h ∧ h.n = loc.length ∧ h.WF ∧
+      ∀ i j, i < loc.length → j < loc.length →
+        h.hasEdge i j = g.hasEdge (loc.getD i 0) (loc.getD j 0) := by
+  have hkeys : (loc.zipIdx.map (·.1)).Perm loc := by
+    have : loc.zipIdx.map (·.1) = loc := List.zipIdx_map_fst 0 loc
+    rw [this]
+  have hvals : (loc.zipIdx.map (·.2)).Perm (List.range loc.length) := by
+    have : loc.zipIdx.map (·.2) = List.range loc.length := by
+      rw [List.range_eq_range']; exact List.zipIdx_map_snd 0 loc
+    rw [this]
+  obtain ⟨h, h1, h2, h3, h4, _⟩ := subgraph_spec g hwf loc loc.zipIdx hne hnd hlt hkeys hvals
+  refine ⟨h, by rw [subgraph_default]; exact h1, h2, h3, ?_⟩
+  intro i j hi hj
+  have hgi : loc.getD i 0 = loc[i] := by simp [hi]
+  have hgj : loc.getD j 0 = loc[j] := by simp [hj]
+  have := h4 loc[i] loc[j] (List.getElem_mem hi) (List.getElem_mem hj)
+  rw [lookup_zipIdx _ _ (List.getElem_mem hi), lookup_zipIdx _ _ (List.getElem_mem hj),
+    idxOf_getElem_of_nodup loc hnd i hi, idxOf_getElem_of_nodup loc hnd j hj] at this
+  rw [hgi, hgj]; exact this
+
+/-- non-vacuity of `subgraph_default_spec` -/
+example : let g : G := ⟨4, [(0, 1), (1, 2), (2, 3)]⟩
+    let loc := [3, 1, 2]
+    g.WF ∧ loc ≠ [] ∧ loc.Nodup ∧ (∀ q ∈ loc, q < g.n) ∧
+      g.subgraph loc none = some ⟨3, [(0, 2), (1, 2)]⟩ := by
+  refine ⟨by unfold G.WF; decide, by decide, by decide, by decide, by decide⟩
+
+/-! ### the "permutation" check of the code is too weak -/
+
+/-- `min(values) == 0 and max(values) == len - 1` accepts the non-injective renumbering
+`{0:0, 1:2, 2:2}`: no exception, vertices 1 and 2 are merged into vertex 2 and the
+returned graph has the isolated vertex 1. -/
+theorem subgraph_weak_check_witness :
+    (G.mk 3 [(0, 1)]).subgraph [0, 1, 2] (some [(0, 0), (1, 2), (2, 2)]) = some ⟨3, [(0, 2)]⟩ := by
+  decide
+
+/-- and when the merged vertices are adjacent the constructor raises (self loop) -/
+theorem subgraph_weak_check_witness_raise :
+    (G.mk 3 [(1, 2)]).subgraph [0, 1, 2] (some [(0, 0), (1, 2), (2, 2)]) = none := by
+  decide
+
 end BqVerif.Graph
